@@ -8,6 +8,8 @@ for f in lean/Bnum/Props/*.lean; do
   m=$(basename "$f" .lean)
   (cd lean && lake build "Bnum.Props.$m" 2>&1 | tail -1)
 done
-(cd harness && cargo build --offline --bins 2>&1 | tail -2; cargo build --offline --bins --profile rel 2>&1 | tail -2)
+# every bin except `widths` (1024 instantiations, ~3.5 min per profile: built on demand by the thorough tier)
+BINS=$(cd harness/src/bin && ls *.rs | sed 's/\.rs$//' | grep -v '^widths$' | sed 's/^/--bin /' | tr '\n' ' ')
+(cd harness && cargo build --offline $BINS 2>&1 | tail -2; cargo build --offline $BINS --profile rel 2>&1 | tail -2)
 (cd harness && cargo +nightly build --offline --bin c15 --features nightly --target-dir target/nightly 2>&1 | tail -1)
 exit 0
